@@ -9,8 +9,24 @@ use crate::refmodel::rlp;
 
 /// The public key (scheme, bytes) a record of family `fam` with these pairs is verified against.
 pub fn record_key(fam: FamId, pairs: &[(Vec<u8>, Vec<u8>)]) -> Option<(Scheme, Vec<u8>)> {
+    if fam == FamId::Tiny {
+        // (the Scheme tag is meaningless for the toy scheme; callers use `node_id_for` / `independent_verify`)
+        let raw = &pairs.iter().find(|(k, _)| k == b"t")?.1;
+        return match rlp::decode_exact(raw) {
+            Ok(rlp::Item::Str(s)) => Some((Scheme::Ed, s)),
+            _ => None,
+        };
+    }
     let kt = fam.key_type().unwrap_or(KeyType::Libsecp);
     crate::props::c01::key_for(kt, pairs)
+}
+
+/// keccak256 of the uncompressed form of the key, per family
+pub fn node_id_for(fam: FamId, scheme: Scheme, pk: &[u8]) -> Option<[u8; 32]> {
+    if fam == FamId::Tiny {
+        return if pk.len() == 4 { Some(crate::refmodel::keccak::keccak256(pk)) } else { None };
+    }
+    node_id_of(scheme, pk)
 }
 
 /// Independent verification of a record's signature over exactly the fields it reports.
@@ -19,6 +35,10 @@ pub fn independent_verify(fam: FamId, s: &Snap) -> Verdict {
         Some(x) => x,
         None => return Verdict::Invalid,
     };
+    if fam == FamId::Tiny {
+        let c = record::content_from_fields(s.seq, &s.pairs);
+        return keys::tiny_verify(&pk, &c, &s.sig);
+    }
     if matches!(fam, FamId::Var | FamId::Wide) {
         let c = record::content_from_fields(s.seq, &s.pairs);
         return keys::var_verify(&pk, &c, &s.sig);
@@ -52,7 +72,7 @@ pub fn valid_record<K: Fam>(fam: FamId, s: &Snap, enr: &enr::Enr<K>) -> Result<(
     if s.pk.as_ref().ok() != Some(&pk) {
         return Err("public_key() differs from the public key entry of the record".into());
     }
-    match node_id_of(scheme, &pk) {
+    match node_id_for(fam, scheme, &pk) {
         Some(id) if id == s.node_id => {}
         Some(_) => return Err("node id is not the hash of the record's public key".into()),
         None => return Err("record carries an invalid public key".into()),
